@@ -335,3 +335,10 @@ def run_case(case, ctx):
                 ctx.fail("preconditioner_changes_only_speed", "value", err=e, **kw)
             else:
                 ctx.ok("preconditioner_changes_only_speed", kb, n >= 2)
+
+
+def finish(ctx):
+    # thorough tier, shard 0: the repository's own test-suite as a second workload under this property's monitor
+    from .. import suite
+
+    suite.ingest(ctx, "steps", "suite.step_bound")
